@@ -210,6 +210,47 @@ def check_range(case: t.Any, ctx: Ctx) -> None:
         ctx.fail('convert-fixed-point', 'pane.types.Range', f"x = {x!r}; convert(x, Range[{num}]) = {y!r}")
 
 
+# ---- fixed points under custom handlers --------------------------------------------------------------
+#
+# convert(x, T, custom=H) serialises x with H and parses the result with H: for a typed x it is still x, also when the
+# handler's serialised form is not the value itself (ints written halved and read doubled).
+
+HANDLER_TYPES = [('s', 'int'), ('seq', 'List', ('s', 'int')), ('seq', 'Set', ('s', 'int')), ('tup', 'Tuple', (('s', 'int'), ('s', 'str'))),
+                 ('map', 'Dict', ('s', 'str'), ('s', 'int')), ('union', 'Optional', (('seq', 'List', ('s', 'int')),)), ('seq', 'TupleVar', ('s', 'int')),
+                 ('seq', 'Deque', ('s', 'int')), ('map', 'Dict', ('s', 'str'), ('seq', 'List', ('s', 'int')))]
+
+
+@st.composite
+def handler_cases(draw) -> t.Any:
+    spec = draw(st.sampled_from(HANDLER_TYPES))
+    return [spec, tg.plainify(draw(tg.node(spec).valid())), draw(st.sampled_from(['double', 'triple']))]
+
+
+def check_handlers(case: t.Any, ctx: Ctx) -> None:
+    import pane
+    from .c17 import _handlers
+    (spec, v, which) = case
+    H = _handlers()[which]
+    nd = tg.node(spec)
+    T = nd.pytype()
+    ctx.label(f"handlers:{nd.kind}")
+    (k, x) = outcome(lambda: pane.from_data(v, T, custom=H))
+    if k != 'ok':
+        ctx.exclude('value not accepted')
+        return
+    ctx.nontrivial(tg.is_seq(v) or tg.is_map(v))
+    ctx.evaluated()
+    (k, y) = outcome(lambda: pane.convert(x, T, custom=H))
+    if k != 'ok':
+        ctx.fail('convert-accepts-typed', f"with-handlers:{nd.kind}", f"T = {nd.render()}; custom = ints x{2 if which == 'double' else 3}; x = {short(x, 100)}; "
+                 f"convert(x, T, custom=...) raised {type(y).__name__}: {str(y)[:200]}")
+        return
+    d = same(y, x)
+    if d is not None:
+        ctx.fail('convert-fixed-point', f"with-handlers:{nd.kind}", f"T = {nd.render()}; custom = ints x{2 if which == 'double' else 3}; x = {short(x, 100)}; "
+                 f"convert(x, T, custom=...) = {short(y, 100)}: {d}")
+
+
 # ---- compiled patterns carrying flags (known finding D72) ----------------------------------------
 
 @st.composite
@@ -261,6 +302,8 @@ def suites(tier: str) -> t.List[Suite]:
     return [
         Suite('fixedpoint', check, strategy=lambda: cases(gen.all_type_specs(leaves)), examples=8000 if big else 600,
               budget_s=480 if big else 40, render=render),
+        Suite('with-handlers', check_handlers, strategy=handler_cases, examples=1500 if big else 120, budget_s=60 if big else 10,
+              render=lambda c: {'type': tg.node(c[0]).render(), 'value': short(c[1], 100), 'handler': c[2]}),
         Suite('pattern-flags', check_pattern, strategy=pattern_cases, examples=400 if big else 40, budget_s=60 if big else 10,
               render=lambda c: {'pattern': c[0], 'flags': c[1], 'where': c[2]}),
         Suite('overlap-unions', check, strategy=lambda: cases(gen.overlap_union_specs()), examples=4000 if big else 450, budget_s=300 if big else 30, render=render),
